@@ -711,7 +711,7 @@ def delete_raggedarray(ra):
                       '"r+" to change')
     for fn in ra._protectedfiles:
         path = ra.path.joinpath(fn)
-        if path.exists() and not path.is_dir():
+        if path.is_file() and not path.is_symlink():
             path.unlink()
     delete_array(ra._values)
     delete_array(ra._indices)
